@@ -275,7 +275,7 @@ DoRun(ev) ==
                     \* an operation that throws (number too long / not minimal) has not touched the stacks: what the user sees after the failed
                     \* exec is the effect of the operations before it (an operation that fails with a script error may leave its own partial effect)
                     pre == ExecPrefix(sess, a[2])
-                    threw == Has(ev, "exc") /\ ev.exc # ""
+                    threw == exp.vm.err \in {"ANY", "UNKNOWN_ERROR"}      \* the labels of the failures raised while operands are decoded
                     bad == IF threw THEN Mismatch(pre, ev) \cap {"stack", "alt", "cond"} ELSE {}
                 IN IF exp.vm.status = "failed" /\ ~ev.ok /\ (exp.vm.err = "ANY" \/ exp.vm.err = ev.err) /\ bad = {}
                    THEN /\ mode' = "skip" /\ cov' = cov \cup {<<"exec", exp.vm.err>>} \cup (IF threw THEN {<<"exec", "threw: prefix kept">>} ELSE {}) /\ stats' = Bump("failed")
